@@ -1,6 +1,8 @@
 package main
 
 import (
+	"strconv"
+	"os"
 	"bytes"
 	"encoding/json"
 	"fmt"
@@ -53,7 +55,11 @@ func renderPlot(rs []vegeta.Result, threshold int, names []string) ([]c17series,
 	if _, err := p.WriteTo(&buf); err != nil {
 		return nil, nil, true
 	}
-	html := buf.String()
+	return parsePlotHTML(buf.String(), names)
+}
+
+// parsePlotHTML extracts the per-series points (in row order) and the x of every row
+func parsePlotHTML(html string, names []string) ([]c17series, []int64, bool) {
 	dm := dataRe.FindStringSubmatch(html)
 	om := optsRe.FindStringSubmatch(html)
 	if dm == nil || om == nil {
@@ -215,6 +221,12 @@ func runC17(idx int, rng *rand.Rand, tier string) []Case {
 	w.Bool(downErr)
 	w.Series(down)
 	w.Zs(downx)
+	// the plot command on a result file in arrival order must plot what the library plots
+	cliSame := true
+	if idx%10 == 7 && os.Getenv("VERIF_VEGETA") != "" {
+		cliSame = c17CLI(idx, arr, th, names, down, downErr)
+	}
+	w.Bool(cliSame)
 	c.Tag = "plot"
 	if outOfDomain {
 		c.Tag = "plot.ood"
@@ -269,4 +281,31 @@ func c17LTTB(count, th int, rng *rand.Rand) Case {
 	c.Dist = fmt.Sprintf("lttb/count%d/out%d", sizeClass(count), kind)
 	c.Sample = map[string]interface{}{"count": count, "threshold": th, "asked": asked, "outcome": kind, "points": clip(out, 12)}
 	return c
+}
+
+func c17CLI(idx int, arr []vegeta.Result, th int, names []string, want []c17series, wantErr bool) bool {
+	in := writeTemp(idx, "plot.bin", encodeResults(arr, []string{"gob", "json", "csv"}[idx%3]))
+	defer os.Remove(in)
+	out, err := runCLI(nil, "plot", "-threshold", strconv.Itoa(th), in)
+	if err != nil {
+		return wantErr
+	}
+	if wantErr {
+		return false
+	}
+	got, _, bad := parsePlotHTML(string(out), names)
+	if bad || len(got) != len(want) {
+		return false
+	}
+	for i := range got {
+		if got[i].attack != want[i].attack || got[i].err != want[i].err || len(got[i].pts) != len(want[i].pts) {
+			return false
+		}
+		for j := range got[i].pts {
+			if got[i].pts[j] != want[i].pts[j] {
+				return false
+			}
+		}
+	}
+	return true
 }
